@@ -6,8 +6,8 @@ import MtailVerif.Props.C10
 #print axioms MtailVerif.C10.gc_expiry_exact
 #print axioms MtailVerif.C10.gc_frame
 #print axioms MtailVerif.C10.gc_at_most_limit
+#print axioms MtailVerif.C10.split_pass_alone_keeps_unexpired
+#print axioms MtailVerif.C10.split_pass_is_unsafe
 #print axioms MtailVerif.C10.metric_skeletons
 #print axioms MtailVerif.C10.f_metrics_store_skeletons
 #print axioms MtailVerif.C10.f_metrics_metric_skeletons
-#print axioms MtailVerif.C10.split_pass_alone_keeps_unexpired
-#print axioms MtailVerif.C10.split_pass_is_unsafe
